@@ -60,7 +60,7 @@ PROPS = {
         "text": "part 1: sanitiser output is always a safe relative path (proved); every constructor and the FHED parser compared with the model",
     },
     "C15": {
-        "lean": ["PnaVerif.Props.Consts", "PnaVerif.Props.C15", "PnaVerif.Props.C15Cli"],
+        "lean": ["PnaVerif.Props.Consts", "PnaVerif.Props.C15", "PnaVerif.Props.C15Cli", "PnaVerif.Props.C15Part"],
         "families": ["codec", "entry", "cli-codec"],
         "trusted": COMMON_TRUST,
         "text": "library codecs: dec(enc v) = v under explicit domain predicates (proved); codecs compared through hooks",
